@@ -210,6 +210,12 @@ class URLInfo(object):
         info.username = percent_decode(username, encoding=encoding)
         info.password = percent_decode(password, encoding=encoding)
 
+        # The url property writes the user-info back percent-encoded. Reject
+        # text that cannot be encoded (lone surrogates) now with a
+        # UnicodeError instead of failing when the property is read.
+        normalize_username(info.username)
+        normalize_password(info.password)
+
         info.host = host
         info.hostname = hostname
         info.port = port or RELATIVE_SCHEME_DEFAULT_PORTS[scheme]
